@@ -450,3 +450,112 @@ Definition bdtor (s : bst) : bst :=
 Definition allocated_page_num (s : bst) : Z := count_value (bcount s).
 Definition boutcome (s : bst) : list (list nat) * list (list nat) * (list nat * nat * Z) :=
   (bheld s, map slot_rest (slots s), (breturned s, bfresh s, allocated_page_num s)).
+
+(* =========================================================================================== PART C *)
+(* Handle / Deleter routing between several ObjectPools.  One step = one call (calls are atomic here: the
+   interleavings inside one pool are PART A's subject); a pool is its FIFO free list.  A HANDLE is a
+   std::unique_ptr<T, ObjectPool<T>::Deleter>: an object plus the pool its Deleter is bound to (None: default
+   constructed Deleter, e.g. a handle built around a fresh `new T`).  What push(unique_ptr<T, Deleter>&&) and
+   Deleter::operator() do is regenerated from object_pool.hpp (call counts in the function bodies). *)
+Record cpool := {
+  cstrict : bool;            (* no creator installed *)
+  ccap : nat;                (* ObjectPool::_capacity *)
+  cq : list nat;             (* _free_objects, head = next pop *)
+  crec : list nat }.         (* this pool's recycler invocations, in order *)
+Record handle := { hobj : nat; hbind : option nat }.
+Inductive cres := CGot (o : nat) | CNone | CBlocked | CPushed (destroyed : bool) | CNew (o : nat) | CDied | CMoved | CSkip.
+Record cst := {
+  cpools : list cpool;
+  hands : list handle;       (* handles held by the client, the first one is the operand of push / die / move *)
+  cfresh : nat;
+  cdestroyed : list nat;     (* objects destroyed (overflow of an auto-creating pool), in order *)
+  cleaked : list nat;        (* objects that ended up nowhere: neither pooled, held nor destroyed *)
+  chome : list (nat * nat);  (* ghost: (object, pool it was last put into / created by), newest first *)
+  clog : list cres }.
+Inductive cop :=
+| CPop (j : nat)       (* handle := pool j .pop() *)
+| CTry (j : nat)       (* handle := pool j .try_pop() *)
+| CNewH                (* handle{new T} with a default-constructed Deleter *)
+| CPushH (j : nat)     (* pool j .push(std::move(handle))            - the unique_ptr<T, Deleter> overload *)
+| CPushU (j : nat)     (* pool j .push(unique_ptr<T>{handle.release()}) - the unique_ptr<T> overload *)
+| CDie                 (* the first handle is destroyed: Deleter::operator() *)
+| CMove.               (* the first handle is moved (construction + assignment) to the end of the list *)
+
+Definition cinit (modes : list bool) (cap : nat) : cst :=
+  {| cpools := map (fun m => {| cstrict := m; ccap := cap; cq := []; crec := [] |}) modes; hands := []; cfresh := 0;
+     cdestroyed := []; cleaked := []; chome := []; clog := [] |}.
+Definition cpool0 : cpool := {| cstrict := true; ccap := 0; cq := []; crec := [] |}.
+
+(* ObjectPool::push(unique_ptr<T>&&) on pool j: recycler, then capacity test (auto-create mode) / enqueue *)
+Definition push_raw (s : cst) (j : nat) (o : nat) : cst * bool :=
+  let p := nth j (cpools s) cpool0 in
+  let drop := negb (cstrict p) && pool_drop (zn (ccap p)) (zn (length (cq p))) in
+  let p' := {| cstrict := cstrict p; ccap := ccap p; cq := if drop then cq p else cq p ++ [o]; crec := crec p ++ [o] |} in
+  ({| cpools := set_nth j p' (cpools s); hands := hands s; cfresh := cfresh s;
+      cdestroyed := if drop then cdestroyed s ++ [o] else cdestroyed s; cleaked := cleaked s;
+      chome := (o, j) :: chome s; clog := clog s |}, drop).
+(* Deleter::operator()(ptr): back to the pool the Deleter is bound to; a Deleter bound to no pool does nothing *)
+Definition deleter_route (s : cst) (h : handle) : cst * bool :=
+  match hbind h with
+  | Some b => if Z.eqb deleter_pushes_to_bound_pool 0 then
+                ({| cpools := cpools s; hands := hands s; cfresh := cfresh s; cdestroyed := cdestroyed s;
+                    cleaked := cleaked s ++ [hobj h]; chome := chome s; clog := clog s |}, false)
+              else push_raw s b (hobj h)
+  | None => ({| cpools := cpools s; hands := hands s; cfresh := cfresh s; cdestroyed := cdestroyed s;
+                cleaked := cleaked s ++ [hobj h]; chome := chome s; clog := clog s |}, false)
+  end.
+(* ObjectPool::push(unique_ptr<T, Deleter>&&) on pool j *)
+Definition push_handle (s : cst) (j : nat) (h : handle) : cst * bool :=
+  if negb (Z.eqb push_handle_release_calls 0) then push_raw s j (hobj h)       (* push(unique_ptr<T>{object.release()}) *)
+  else if negb (Z.eqb push_handle_reset_calls 0) then deleter_route s h        (* object.reset() *)
+  else deleter_route s h.                                                     (* the rvalue dies at the call site *)
+
+Definition with_hands (s : cst) (hs : list handle) (r : cres) : cst :=
+  {| cpools := cpools s; hands := hs; cfresh := cfresh s; cdestroyed := cdestroyed s; cleaked := cleaked s;
+     chome := chome s; clog := clog s ++ [r] |}.
+Definition take_from (s : cst) (j : nat) (o : nat) (rest : list nat) : cst :=
+  let p := nth j (cpools s) cpool0 in
+  {| cpools := set_nth j {| cstrict := cstrict p; ccap := ccap p; cq := rest; crec := crec p |} (cpools s);
+     hands := hands s ++ [{| hobj := o; hbind := Some j |}]; cfresh := cfresh s; cdestroyed := cdestroyed s;
+     cleaked := cleaked s; chome := chome s; clog := clog s ++ [CGot o] |}.
+
+Definition cstep (s : cst) (o : cop) : cst :=
+  match o with
+  | CPop j =>
+    let p := nth j (cpools s) cpool0 in
+    match cq p with
+    | x :: rest => take_from s j x rest
+    | [] => if cstrict p then with_hands s (hands s) CBlocked
+            else {| cpools := cpools s; hands := hands s ++ [{| hobj := cfresh s; hbind := Some j |}]; cfresh := S (cfresh s);
+                    cdestroyed := cdestroyed s; cleaked := cleaked s; chome := (cfresh s, j) :: chome s;
+                    clog := clog s ++ [CGot (cfresh s)] |}
+    end
+  | CTry j =>
+    match cq (nth j (cpools s) cpool0) with
+    | x :: rest => take_from s j x rest
+    | [] => with_hands s (hands s) CNone
+    end
+  | CNewH => {| cpools := cpools s; hands := hands s ++ [{| hobj := cfresh s; hbind := None |}]; cfresh := S (cfresh s);
+               cdestroyed := cdestroyed s; cleaked := cleaked s; chome := chome s; clog := clog s ++ [CNew (cfresh s)] |}
+  | CPushH j =>
+    match hands s with
+    | h :: hs => let (s1, d) := push_handle s j h in with_hands s1 hs (CPushed d)
+    | [] => with_hands s [] CSkip
+    end
+  | CPushU j =>
+    match hands s with
+    | h :: hs => let (s1, d) := push_raw s j (hobj h) in with_hands s1 hs (CPushed d)
+    | [] => with_hands s [] CSkip
+    end
+  | CDie =>
+    match hands s with
+    | h :: hs => let (s1, _) := deleter_route s h in with_hands s1 hs CDied
+    | [] => with_hands s [] CSkip
+    end
+  | CMove =>
+    match hands s with
+    | h :: hs => with_hands s (hs ++ [h]) CMoved
+    | [] => with_hands s [] CSkip
+    end
+  end.
+Definition crun (s : cst) (ops : list cop) : cst := fold_left cstep ops s.
